@@ -139,7 +139,7 @@ Fixpoint memN (l : list N) (i : N) : bool :=
 
 (* load(): for (i = 0; i < 255; i++) { ventry[i].length = (i & 240) >> 4; ventry[i].bits = (i & 15) + 1; } *)
 Definition ventry (code : N) : option (N * N) :=
-  if code <? 255 then Some (N.shiftr (N.land code 240) 4, N.land code 15 + 1) else None.
+  if code <? 256 then Some (N.shiftr (N.land code 240) 4, N.land code 15 + 1) else None.
 
 (* what one getSubstring call found in the table *)
 Inductive centry :=
